@@ -32,6 +32,11 @@ def catalogue():
       'xneg': F('p', feasible_values=[-3.0, -1.0, 0.0, 2.5]), 'xlog': F('p', feasible_values=[0.01, 1.0, 100.0], scale_type=S.LOG),
       'c1': F('p', feasible_values=['only']), 'c2': F('p', feasible_values=['a', 'b']), 'c5': F('p', feasible_values=['a', 'b', 'c', 'd', 'e']),
       'bool': ss.get('p'),
+      # "siblings": same name, kind and number of values, overlapping values at different positions (two studies of one
+      # process may well look like this; anything cached per parameter *shape* instead of per parameter shows here)
+      'x3a': F('p', feasible_values=[1.0, 2.0, 3.0]), 'x3b': F('p', feasible_values=[2.0, 3.0, 4.0]),
+      'c3a': F('p', feasible_values=['a', 'b', 'c']), 'c3b': F('p', feasible_values=['b', 'c', 'd']),
+      'i14': F('p', bounds=(1, 4)), 'i25': F('p', bounds=(2, 5)),
   }
 
 
@@ -316,6 +321,9 @@ def part_labels(task):
 def run(ctx):
   keys = list(catalogue())
   tasks = [('part_single', {'keys': [k]}) for k in keys]
+  sib = ['x3a', 'x3b', 'c3a', 'c3b', 'i14', 'i25']
+  tasks.append(('part_single', {'keys': sib + sib[::-1]}))       # one process, both orders
+  tasks.append(('part_space', {'spaces': [(k,) for k in sib + sib[::-1]] + [('x3a', 'c3a'), ('x3b', 'c3b'), ('x3a', 'c3a')]}))
   tasks.append(('part_labels', {}))
   spaces = [(k,) for k in keys]
   pair_keys = ['d-55', 'dlog', 'i-22', 'i015', 'x2', 'x12', 'c2', 'c5', 'bool', 'dsingle']
